@@ -446,7 +446,7 @@ theorem putTail_lexEnabled (m : Mem) (a : PutArgs) (sup reuse : Option Nat) (t :
   · rfl
   · split
     · rfl
-    · show (((m.appendPut a sup reuse).afterAppend t).addCards a.nc (m.seq + 1)).lexEnabled = _
+    · show (Mem.addCards _ _ _).lexEnabled = _
       rw [addCards_lexEnabled, afterAppend_lexEnabled]; rfl
 
 theorem enableVec_lexEnabled (m : Mem) : m.enableVec.lexEnabled = m.lexEnabled := by
